@@ -19,6 +19,10 @@ SSICOV = "pyoma2.algorithms.ssi.SSIcov"
 SINGLE = "pyoma2.setup.single.SingleSetup"
 
 
+def _witness(self, o):
+    return dict(self.bounded_driver)
+
+
 def _alg(c, cls, name, gate=True):
     """an algorithm as a setup sees it; with gate=True data / fs / run parameters may each be missing (None)"""
     b = {k: (z3.Bool(c.fresh_name(f"{name}.has_{k}")) if gate else True) for k in ("fs", "data", "run_params")}
@@ -53,6 +57,7 @@ def _same_fields(c, label, pre, post, skip=()):
 
 @register
 class pre_run(Contract):
+    witness = _witness
     qualname = "pyoma2.algorithms.base.BaseAlgorithm._pre_run"
     props = ("C15",)
     generic_replay = False
@@ -157,6 +162,7 @@ def _setup_obj(c, n_alg=2):
 
 
 class _RunByName(Contract):
+    witness = _witness
     qualname = "pyoma2.setup.base.BaseSetup.run_by_name"
     props = ("C15",)
     generic_replay = False
@@ -224,6 +230,7 @@ class run_by_name_missing(_RunByName):
 
 @register
 class run_all(Contract):
+    witness = _witness
     """run_all = run_by_name for every registered name, in registration order; each run sees only its own algorithm"""
     qualname = "pyoma2.setup.base.BaseSetup.run_all"
     props = ("C15",)
@@ -317,6 +324,7 @@ def _never_run(cls, rp_fields):
 
 
 class _Gate(Contract):
+    witness = _witness
     props = ("C15",)
     generic_replay = False
     callable_modular = False
@@ -377,6 +385,7 @@ def _poser_setups(c, counts):
 
 
 class _Poser(Contract):
+    witness = _witness
     qualname = "pyoma2.setup.multi.MultiSetup_PoSER.__init__"
     props = ("C15",)
     generic_replay = False
@@ -423,6 +432,13 @@ def _register_poser():
         nm = "setups with " + ("no setups" if not t else "/".join(str(k) for k in t) + " algorithms")
         out.append(register(type("poser_" + "_".join(map(str, t)), (_Poser,), {"counts": t, "name": nm})))
     out.append(register(type("poser_none", (_Poser,), {"counts": (), "none_list": True, "name": "single_setups=None"})))
+    # thorough tier: every 4-setup layout over 0 / 1 / 2 algorithms per setup
+    done = set(combos)
+    for t in itertools.product((0, 1, 2), repeat=4):
+        if t in done:
+            continue
+        nm = "setups with " + "/".join(str(k) for k in t) + " algorithms"
+        out.append(register(type("poser_" + "_".join(map(str, t)), (_Poser,), {"counts": t, "name": nm, "thorough_only": True})))
     return out
 
 
